@@ -726,3 +726,67 @@ func isParamNamedOrIdx(f *chk.Fn, name string, idx int) func(ast.Expr) bool {
 	}
 	return isParamIdx(f, idx)
 }
+
+// flowSources returns the local variables whose value is copied (plain
+// `a = b`, `a, x = b, y`, `a := b`) into obj, directly or through other locals:
+// a list that is built in one variable and then handed over under another name.
+func flowSources(f *chk.Fn, obj types.Object) map[types.Object]bool {
+	edges := map[types.Object][]types.Object{} // dst -> srcs
+	add := func(l, r ast.Expr) {
+		li, ok1 := ast.Unparen(l).(*ast.Ident)
+		ri, ok2 := ast.Unparen(r).(*ast.Ident)
+		if !ok1 || !ok2 {
+			return
+		}
+		lo, ro := f.ObjOf(li), f.ObjOf(ri)
+		if lo == nil || ro == nil || lo == ro {
+			return
+		}
+		if _, isVar := ro.(*types.Var); !isVar {
+			return
+		}
+		edges[lo] = append(edges[lo], ro)
+	}
+	ast.Inspect(f.Body, func(n ast.Node) bool {
+		switch s := n.(type) {
+		case *ast.AssignStmt:
+			if len(s.Lhs) == len(s.Rhs) {
+				for i := range s.Lhs {
+					add(s.Lhs[i], s.Rhs[i])
+				}
+			}
+		case *ast.ValueSpec:
+			if len(s.Names) == len(s.Values) {
+				for i := range s.Names {
+					add(s.Names[i], s.Values[i])
+				}
+			}
+		}
+		return true
+	})
+	out := map[types.Object]bool{}
+	work := []types.Object{obj}
+	for len(work) > 0 {
+		o := work[len(work)-1]
+		work = work[:len(work)-1]
+		for _, s := range edges[o] {
+			if !out[s] && s != obj {
+				out[s] = true
+				work = append(work, s)
+			}
+		}
+	}
+	return out
+}
+
+// isObjOrSource: the expression is obj or a variable whose value is copied into obj.
+func isObjOrSource(f *chk.Fn, obj types.Object) func(ast.Expr) bool {
+	src := flowSources(f, obj)
+	return func(e ast.Expr) bool {
+		if f.Denotes(e, obj) {
+			return true
+		}
+		o := f.ObjOf(e)
+		return o != nil && src[o]
+	}
+}
